@@ -3,7 +3,7 @@ random.Random; the generator looks at the *observed* repository (Snap) to pick
 mostly-valid arguments, plus a separate stream of invalid ones."""
 import re
 
-from hist import (c_branch_flags, Edit, c_add, c_branch, c_branch_delete, c_branch_list, c_branch_rename, c_cat_file,
+from hist import (c_branch_flags, c_reset_flags, c_switch_flags, c_cat_file_flags, Edit, c_add, c_branch, c_branch_delete, c_branch_list, c_branch_rename, c_cat_file,
                   c_commit, c_config, c_hash_object, c_init, c_log, c_ls_files, c_reflog, c_reset,
                   c_restore, c_rev_parse, c_rm, c_status, c_switch, c_switch_create, c_update_ref,
                   c_write_tree)
@@ -202,7 +202,7 @@ DEFAULT_WEIGHTS = {
 
 def gen_hostile(rng, st):
     """refusable / malformed invocations (still modelled)"""
-    k = rng.randrange(16)
+    k = rng.randrange(18)
     if k == 0:
         return c_update_ref(b"refs/heads/" + (st.head or b"main"), rng.choice(st.blobs + st.trees).hex()) \
             if (st.blobs or st.trees) else c_update_ref(b"refs/heads/main", "0" * 40)
@@ -236,7 +236,7 @@ def gen_hostile(rng, st):
         return c_config(rng.choice([b"user", b"a.b.c", b"user.name"]), b"v")
     if k == 14:
         return c_add([rng.choice([b"nope", b"no/such/file"])])
-    if k == 15 or rng.random() < 0.3:
+    if k == 15:
         # two modes of `branch` at once: always refused, nothing may change
         others = [b for b in st.branches if b != st.head] or [b"nope"]
         combo = rng.randrange(5)
@@ -249,6 +249,25 @@ def gen_hostile(rng, st):
         if combo == 3:
             return c_branch_flags(lst=True, delete=rng.choice(others))
         return c_branch_flags(names=[rng.choice(BRANCHES), rng.choice(BRANCHES)])
+    if k == 16:
+        # mode flags of other commands combined, missing or repeated arguments
+        combo = rng.randrange(8)
+        pos = rng.choice([b"HEAD@{0}", b"HEAD@{1}"])
+        if combo == 0:
+            return c_reset_flags(True, None, True, [pos])
+        if combo == 1:
+            return c_reset_flags(True, True, False, [pos])
+        if combo == 2:
+            return c_reset_flags(False, False, False, [pos])
+        if combo == 3:
+            return c_reset_flags(False, None, True, [pos, pos])
+        if combo == 4:
+            return c_switch_flags([rng.choice(st.branches or BRANCHES)], create=rng.choice(BRANCHES))
+        if combo == 5:
+            return c_switch_flags([rng.choice(BRANCHES), rng.choice(BRANCHES)])
+        if combo == 6:
+            return c_cat_file_flags(True, True, [(rng.choice(st.commits) if st.commits else b"\0" * 20).hex()])
+        return c_cat_file_flags(False, False, [(rng.choice(st.blobs) if st.blobs else b"\0" * 20).hex()])
     return c_log(rng.choice([0, -1, 1, 100]))
 
 
